@@ -564,7 +564,10 @@ func c01EntriesCall(t *simkit.Task, w *World, pub *PubNode, sub *SubNode, cfg c0
 }
 
 // c01TreeCall exercises the all-links entry point on a small link tree
-// without shared children: expected order is depth-first pre-order.
+// without shared children: expected order is depth-first pre-order. (A block
+// linked twice is visited and reported twice; the repository's own suite
+// pins that - TestSyncFn counts 11 hook calls for 7 distinct blocks - so
+// DAGs with shared blocks are not generated.)
 func c01TreeCall(t *simkit.Task, w *World, pub *PubNode, sub *SubNode) {
 	r, tp := w.R, w.R.Tape
 	w.treeSeq++
